@@ -185,6 +185,14 @@ func BuildTx(w *mc.World, t model.Tx) mc.TxSpec {
 	for _, m := range t.Msgs {
 		ts.Msgs = append(ts.Msgs, BuildMsg(w, m))
 	}
+	if t.Signed != nil { // sign these (amino JSON), deliver t.Msgs with the signatures
+		ts.AminoJSON = true
+		ts.SwapMsgs = ts.Msgs
+		ts.Msgs = nil
+		for _, m := range t.Signed {
+			ts.Msgs = append(ts.Msgs, BuildMsg(w, m))
+		}
+	}
 	// fee coins must be sorted by denom
 	var fee sdk.Coins
 	for d := range t.Fee {
